@@ -21,7 +21,10 @@ ACTION_CONSTRAINT Emit
 CHECK_DEADLOCK FALSE
 """
 CELLS = [None, [[12, 0, 0], [0, 13, 0], [0, 0, 14]], [[12, 0, 0], [-6, 11, 0], [0, 0, 12]], [[12, 0, 0], [-4, 12, 0], [-4, -5, 11]],
-         [[11, 0, 0], [15, 11, 0], [-17, 8, 11]]]
+         [[11, 0, 0], [15, 11, 0], [-17, 8, 11]],
+         # monoclinic cells with ONE odd angle, each kept as a family of its own (every frame of the call has the same zero pattern
+         # in its box matrix): beta only, alpha only
+         [[12, 0, 0], [0, 13, 0], [-5, 0, 12]], [[12, 0, 0], [0, 13, 0], [0, -5, 12]]]
 KINDS = {"LYS": ["N", "CA", "C", "O", "CB", "CG", "CD", "CE", "NZ"], "VAL": ["N", "CA", "C", "O", "CB", "CG1", "CG2"], "GLY": ["N", "CA", "C", "O"],
          "NOC": ["N", "CA", "O", "CB"], "NON": ["CA", "C", "O", "CB"], "ARG": ["N", "CA", "C", "O", "CB", "CG", "CD", "NE", "CZ", "NH1", "NH2"],
          "HOH": ["O", "H1", "H2"]}
@@ -47,7 +50,9 @@ def _geom_batch(task):
     if cell is not None:
         # the cell varies from frame to frame (integer multiples; orthorhombic ones also stretched per axis), > 256 frames per call
         cm = np.array(cell, dtype=float)[None] * rs.randint(1, 3, size=(n, 1, 1))
-        if cell_i >= 2:
+        if cell_i >= 5:
+            cm = np.array(cell, dtype=float)[None] * rs.randint(1, 3, size=(n, 1, 1))      # same shape, one or two cells long
+        elif cell_i >= 2:
             # triclinic frames take turns among the three triclinic shapes (a multiple of one cell is a sub-lattice of it: a kernel
             # that used a stale cell of the same shape would still find the right image)
             pick = rs.randint(2, 5, size=n)
@@ -203,7 +208,7 @@ def run(ctx):
     for recs in (ang, dih):
         for i in range(0, len(recs), B):
             for ci in range(len(CELLS)):
-                if ctx.thorough or ci in (0, 1 + (i // B) % 4):
+                if ctx.thorough or ci in (0, 1 + (i // B) % 6):
                     tasks.append((recs[i:i + B], ctx.seed * 31 + i + ci, ci, (i // B) % 5 == 0))
     res = pool.run_tasks(_geom_batch, tasks, workers=16, timeout=900, batch=1)
     nfail = 0
